@@ -263,7 +263,9 @@ reg("C04", ["c04_init.c"],
          "area's end, a register moved anywhere from two words below the first area to two beyond the last (holes, "
          "gaps), duplicate address, two registers swapped, overlap by one word, default just outside the constraint or "
          "a non-finite float default, no registers at all, default loading of an area switched (skip-defaults, no "
-         "write callback). 128 units x 2500 descriptions (quick), 1200 x 20000 (thorough). A signature is the hash of "
+         "write callback). 128 units x 2500 descriptions (quick), 1200 x 20000 (thorough). 'top': 80 well-formed descriptions whose "
+         "last area ends exactly at 2^32 (sizes 1-16, alone or behind another area, with and without a register on the "
+         "last words) - refused by the library today, a recorded known finding. A signature is the hash of "
          "a description; evaluations counts descriptions initialised and judged.",
     assumptions=["the statement orders the rules, the code interleaves them per index within a stage (area order/overlap, "
                  "register order/overlap, register placement/default): the first violation in rule-major order and the "
